@@ -415,7 +415,8 @@ def multiband_world_strategy(draw):
         connections.append({'from_node': f'trx {s}', 'to_node': f'roadm {s}'})
         connections.append({'from_node': f'roadm {s}', 'to_node': f'trx {s}'})
     bands = [{'f_min': 191.3e12, 'f_max': 196.0e12}, {'f_min': 187.0e12, 'f_max': 190.0e12}]
-    kinds = ['mb_no_design', 'mb_type_variety', 'mb_no_design', 'single', 'single_reduced', 'mb_mixed', 'mb_explicit']
+    kinds = ['mb_no_design', 'mb_type_variety', 'mb_no_design', 'single', 'single_reduced', 'mb_mixed', 'mb_explicit',
+             'single_L', 'single_medium']
     auto_mb = draw(st.integers(0, 5)) == 0
     if auto_mb:
         # boosters and pre-amplifiers are left to auto-design: gnpy inserts Multiband_amplifier elements itself (their
@@ -457,6 +458,10 @@ def multiband_world_strategy(draw):
                         'tilt_target': 0, 'out_voa': draw(st.sampled_from([0, 1]))}} for sb in groups[tv]]
                 if kind == 'single_reduced':
                     el['type_variety'] = 'std_low_gain_reduced_band'
+                if kind == 'single_L':
+                    el['type_variety'] = 'std_low_gain_L'          # an L-band only line next to C / C+L lines
+                if kind == 'single_medium':
+                    el['type_variety'] = 'std_medium_gain'         # with the staggered library: 191.225-196.125 THz
                 return el
             if kind == 'mb_auto':
                 chain = [{'uid': f'fiber ({a} → {b})-0', 'type': 'Fiber', 'type_variety': 'SSMF',
